@@ -30,10 +30,36 @@ var classifierFuncs = []string{"IsPermanentError", "IsTransientError"}
 // real client module, how each catalogue value relates to it.
 func (e *Engine) loadCatalogue() error {
 	pats := map[string]bool{}
+	// the classifiers, the helpers of the package they call, and every constant table of the package
+	seen := map[*ssa.Function]bool{}
+	var work []*ssa.Function
 	for _, k := range classifierFuncs {
-		fn := e.funcs[k]
-		if fn == nil {
+		if fn := e.funcs[k]; fn != nil {
+			work = append(work, fn)
+		}
+	}
+	for _, cs := range e.constTables {
+		for _, c := range cs {
+			if c.Value != nil && c.Value.Kind() == constant.String {
+				pats[constant.StringVal(c.Value)] = true
+			}
+		}
+	}
+	for len(work) > 0 {
+		fn := work[len(work)-1]
+		work = work[:len(work)-1]
+		if seen[fn] {
 			continue
+		}
+		seen[fn] = true
+		for _, b := range fn.Blocks {
+			for _, in := range b.Instrs {
+				if c, ok := in.(ssa.CallInstruction); ok {
+					if sc := c.Common().StaticCallee(); sc != nil && sc.Pkg == e.pkg && sc.Blocks != nil {
+						work = append(work, sc)
+					}
+				}
+			}
 		}
 		for _, b := range fn.Blocks {
 			for _, in := range b.Instrs {
